@@ -58,6 +58,7 @@ ID = Kind("ID", _id)
 TS = Kind("TS", st.integers(1, 2 ** 31 - 1).map(str))
 COUNT = Kind("COUNT", st.integers(1, 5000).map(str))
 NUM = Kind("NUM", st.integers(0, 100000).map(str))
+COUNT0 = Kind("COUNT0", st.one_of(st.just("0"), st.integers(0, 5000).map(str)))      # a count that may be zero
 PHONE = Kind("PHONE", _phone)
 JID = Kind("JID", _phone.map(lambda p: p + "@s.whatsapp.net"))
 GJID = Kind("GJID", st.builds(lambda p, t: "%s-%d@g.us" % (p, t), _phone, st.integers(1300000000, 1700000000)))
